@@ -55,6 +55,33 @@ def splitScripts (lines : Array String) : Array Script := Id.run do
 
 def int? (s : String) : Option Int := s.toInt?
 
+def hexVal (c : Char) : Option Nat :=
+  if '0' ≤ c ∧ c ≤ '9' then some (c.toNat - '0'.toNat)
+  else if 'a' ≤ c ∧ c ≤ 'f' then some (c.toNat - 'a'.toNat + 10)
+  else if 'A' ≤ c ∧ c ≤ 'F' then some (c.toNat - 'A'.toNat + 10)
+  else none
+
+/-- `-` is the empty byte string; otherwise an even number of hex digits. -/
+def hex? (s : String) : Option (List UInt8) :=
+  if s == "-" then some [] else
+  let rec go : List Char → List UInt8 → Option (List UInt8)
+    | [], acc => some acc.reverse
+    | [_], _ => none
+    | a :: b :: r, acc => do
+        let x ← hexVal a
+        let y ← hexVal b
+        go r (UInt8.ofNat (x * 16 + y) :: acc)
+  go s.toList []
+
+def toHex (b : List UInt8) : String :=
+  if b.isEmpty then "-" else
+  let d (n : Nat) : Char := if n < 10 then Char.ofNat (n + 48) else Char.ofNat (n + 87)
+  String.ofList (b.flatMap fun x => [d (x.toNat / 16), d (x.toNat % 16)])
+
+/-- value of `key=` among the tokens -/
+def attr? (toks : List String) (key : String) : Option String :=
+  (toks.find? (·.startsWith (key ++ "="))).map (fun t => (t.drop (key.length + 1)).toString)
+
 def report (id : String) (r : Result) : IO Unit := do
   let m := match r.modelDiff with | none => "ok" | some (l, _) => s!"diff@{l}"
   let s := match r.specFail with | none => "ok" | some (l, _) => s!"fail@{l}"
